@@ -295,13 +295,13 @@ def rule_language(ctx, rule, probes=None, what='language and rule priority', rej
     the same accepted rules as the reference automaton built from the rule text by the E3 model."""
     rep = ctx.rep
     res = language_results(ctx, probes)
-    states = 0
+    states = 0; notgen = []
     for name, (probe, kind, rej, dis, n, v) in sorted(res.items()):
         if probes is not None and probe not in probes: continue
         if rej_only and not rej: continue
         states += n
         if isinstance(dis, str):
-            rep.broken('%s: language probe %s: %s' % (rule, name, dis))
+            notgen.append('%s: language probe %s: %s' % (rule, name, dis)); continue       # reported after the probes that were generated
         if not dis:
             rep.ok(rule, '%s (%s tables%s): %s equal the reference over all inputs (%d product states)' % (name, kind, ', REJECT lists' if rej else '', what, n))
             continue
@@ -311,6 +311,7 @@ def rule_language(ctx, rule, probes=None, what='language and rule priority', rej
                      'after reading %r the generated tables say "%s" but the rule set says "%s" (rule numbers are positions in the probe; probe %s, %s tables)' % (w, tv, rv, probe, kind),
                      replay_input=v.spec() + '\n--- input: %r' % w, variant=v.describe())
     rep.setcount('language_probe_variants', len(res)); rep.setcount('language_product_states', states)
+    if notgen: rep.broken('; '.join(notgen[:3]) + (' (+%d more)' % (len(notgen) - 3) if len(notgen) > 3 else ''))
     return len(res)
 
 def rule_representations(ctx, rule):
@@ -319,9 +320,9 @@ def rule_representations(ctx, rule):
     to the representation and a front-end defect is not reported twice)."""
     rep = ctx.rep
     res = language_results(ctx)
-    groups = {}
+    groups = {}; notgen = []
     for name, (probe, kind, rej, dis, n, v) in res.items():
-        if isinstance(dis, str): rep.broken('%s: language probe %s: %s' % (rule, name, dis))
+        if isinstance(dis, str): notgen.append('%s: language probe %s: %s' % (rule, name, dis)); continue
         sig = tuple(sorted((sc, bol, w, tv) for sc, bol, w, tv, rv in dis))
         groups.setdefault((probe, rej), {})[name] = (sig, kind)
     n = 0
@@ -340,6 +341,7 @@ def rule_representations(ctx, rule):
                 rep.fail(rule, '%s:tables:%s:%s' % (rule, probe, '+'.join(kinds)), ', '.join(sorted(names)),
                          'table representation(s) %s of probe %s behave differently from the others%s' % (
                              '/'.join(kinds), probe, (': after %r they say "%s"' % (w[2], w[3])) if w else ' (the others disagree with the reference, these do not)'))
+    if notgen: rep.broken('; '.join(notgen[:3]) + (' (+%d more)' % (len(notgen) - 3) if len(notgen) > 3 else ''))
     return n
 
 # ------------------------------------------------------------------ declared element types versus the values written
